@@ -920,7 +920,7 @@ class Exp(Num):
                     return 3
 
                 if int(log_mod := log2(mod)) == log_mod:  # no-branch
-                    exp %= int(2 ** (int(log_mod) - 2))
+                    exp %= int(2 ** max(int(log_mod) - 2, 1))
 
             case 6:
                 if mod == 10:  # no-branch
